@@ -35,6 +35,7 @@ class World:
         self.construct_hooks = {}
         self.type_factories = {}
         self.ref_methods = {}
+        self.dropped_names = set()
 
     # ---------------- registration
     def add(self, c):
@@ -53,6 +54,12 @@ class World:
 
     def enum_const(self, name, member):
         return self.globals[name].members[member]
+
+    def add_function(self, c, name=None):
+        '''a module-level function of the repository, called through its contract'''
+        self.contracts[c.qual] = c
+        self.globals[name or c.qual] = lambda I, *a, **k: I.apply_contract(c, list(a), dict(k))
+        return c
 
     # ---------------- lookups used by the interpreter
     def global_name(self, I, name):
